@@ -617,7 +617,20 @@ func genC20(r *Rng) *Plan {
 			}
 			return st
 		}
-		switch r.Intn(11) {
+		switch r.Intn(12) {
+		case 11: // the authenticator's answer to a provider callback whose state does not belong to the sign-in this browser
+			// has in progress (its CSRF cookie is there): the nonce part of the state carries the text
+			ft, fh := fmt.Sprintf("T%d", i), fmt.Sprintf("H%d", i)
+			p.Steps = append(p.Steps, Step{Op: "flow_start", B: "cs-t", Name: ft, Sub: "auth-callback", User: "alice@example.com", Host: host, Target: "/"},
+				Step{Op: "flow_start", B: "cs-h", Name: fh, Sub: "auth-callback", User: "alice@example.com", Host: host, Target: "/"})
+			pair(func(s string) Step {
+				st := Step{Op: "pending", B: "cs-h", Name: fh, Sub: "junk-state", Follow: 1}
+				if s == "benign" {
+					st.B, st.Name = "cs-t", ft
+				}
+				st.Str = base64.URLEncoding.EncodeToString([]byte(s + ":https://" + host + "/"))
+				return extra(st)
+			}, h)
 		case 10: // whatever the proxy itself answers when the backend cannot be reached (refused, reset, cut short), for a
 			// request whose path and forwarding headers carry the text
 			fk := r.Pick("refuse", "reset", "truncate")
